@@ -34,9 +34,41 @@ CLAIMED = {
    text="caller side and callee side are checked SEPARATELY against an independently written psABI model (classification of 22 struct/union shapes + 7 scalar classes, register/stack placement, hidden return pointer, 16-byte alignment, %al, callee-saved registers, x87 stack): every argument/return byte is symbolic and z3 decides that it sits in the psABI location, for each menu type placed after k INTEGER and j SSE arguments around register exhaustion; va_start image and va_arg walkers likewise; counterexamples are replayed between gcc-compiled and chibicc-compiled code",
    note="trusts z3, the asm executor, the psABI model in lib/abi.py (validated by the native gcc<->chibicc replays); padding bytes and >17 parameters outside",
    technique="SMT over symbolic execution of emitted call sites / prologues against a psABI placement model"),
+ "C05": dict(engine=E1 + "+" + E2, level="model_checking",
+   text="two views: (E1, cbmc) the real write_gvar_data/create_lvar_init/new_initializer on symbolic Initializer trees over four aggregate shapes (bit-fields incl. long:40, nested, array of struct, union) with ANY int/long leaf value and every presence pattern: static byte image and automatic assignment chain equal the 6.7.9 reference; (E2) generated initializer spellings (designators, brace elision, strings, unions, bit-fields incl. unnamed, arrays of unknown bound, trailing commas) through the whole compiler: every scalar leaf of the static object (emitted data image) and of the automatic object (emitted code) read back by symbolic execution equals the C11 6.7.9 reference, which is first validated against gcc on each generated program",
+   note="trusts cbmc, z3, the asm executor, the reference in lib/cinit.py (gcc-validated per program); re-initialisation of a partly initialised aggregate (DR 413) and floating/pointer members outside",
+   technique="cbmc bounded model checking of the real initializer back-ends + SMT-backed symbolic execution of emitted code/data vs a reference"),
+ "C07": dict(engine=E1 + "+" + E2, level="model_checking",
+   text="(E1, cbmc) the real add_type + eval/eval2 on symbolic ASTs: every root operator over leaves that are optionally-cast literals of int/unsigned/long/unsigned long with ANY 64-bit value equals a C11 reference evaluator (gcc-validated), depth 2 for selected operator pairs, division by zero reaches a diagnostic; (E2) generated constant expressions over boundary literals used as static initializer, enumerator, array bound, bit-field width, _Alignas, case label and #if, plus the same expression evaluated at run time over variables: all agree with the C11 value",
+   note="for * / % the right operand is restricted to [-4,3] in E1 (stated); host-UB checks inside eval2 off; eval_double cut",
+   technique="cbmc bounded model checking of the real constant folder + symbolic execution of emitted code/data for folded constants in every constant context"),
+ "C08": dict(engine=E1 + "+" + E2, level="model_checking",
+   text="(E1, cbmc) the real struct_decl/union_decl offset loops on symbolic member lists (<=4 members: 14 scalar types, arrays, nested aggregates, bit-fields of any base/width incl. 0 and unnamed, _Alignas, packed, aligned(N)) against a psABI reference validated on ~11000 shapes against gcc; the real declspec over every sequence of 1-5 type-specifier keywords against the C11 6.7.2p2 table; (E2) generated declarations and hand-written declarator/attribute/anonymous-member shapes through the whole compiler: sizeof/_Alignof/offsets/bit-field images returned by the emitted code equal the psABI values",
+   note="5 recorded findings (packed+bit-field, packed+_Alignas, `signed signed`); >5 members outside",
+   technique="cbmc bounded model checking of the real layout/specifier code + symbolic execution of emitted sizeof/offsetof code"),
+ "C10": dict(engine=E1, level="model_checking",
+   text="cbmc over the real preprocess2/skip_cond_incl* on symbolic directive sequences (<=7 items, nesting <=3, controlling values symbolic) against a C11 6.10.1 group-selection reference incl. trailing tokens; the real detect_include_guard on symbolic token lists vs the 'whole file is one guarded group' predicate; the real parse_args/search_include_paths/search_include_next with file_exists a symbolic relation: first hit in (includer dir, -I, system, -idirafter) order, incl. the include_next index after cache hits",
+   note="eval_const_expr cut to the embedded bit (its arithmetic is C07); -include/-D/-U interplay beyond ordering outside",
+   technique="cbmc bounded model checking of the real preprocessor/driver functions with a symbolic file system"),
+ "C14": dict(engine=E1, level="model_checking",
+   text="cbmc over the real main() of main.c for each command shape (-E/-S/-c/link x -o x 1-2 inputs) with fork/execvp/wait/mkstemp/unlink/fopen/atexit replaced by an environment model in which every child's wait status is symbolic (any exit code or signal): a failing child makes the driver exit non-zero and spawn nothing further, every mkstemp name is unlinked at exit, only requested outputs are produced; in cc1() the output file is opened only after codegen returned",
+   note="same-output races between concurrent invocations outside (non-interference argued from mkstemp's uniqueness contract)",
+   technique="cbmc bounded model checking of the real driver with a nondeterministic process/file-system environment"),
+ "C17": dict(engine=E1, level="model_checking",
+   text="inductive step in cbmc: ONE put2/get2/delete2 (and rehash, and the load-factor trigger) from EVERY table state satisfying the representation invariant (capacity 4 and 8; keys with symbolic bytes hashed by the real fnv_hash): invariant preserved, abstract dictionary updated exactly, unreachable() unreachable - covers histories of any length; counterexamples are turned into public-API histories from an empty map and replayed natively",
+   note="capacity 16 only for get/delete; macro-table/scope clients rely on the map specification; memcmp/calloc contract stubs (listed in evidence)",
+   technique="cbmc inductive-step model checking of the real hashmap.c"),
+ "C18": dict(engine=E1, level="model_checking",
+   text="cbmc over the real canonicalize_newline/remove_backslash_newline/add_line_numbers on every buffer of <=6 bytes over {\\, LF, CR, letter, space} against a C11 phase-1/2 reference, and over the real preprocess/read_line_marker/line_macro with symbolic physical lines and #line values (both directive forms)",
+   note="3 recorded findings (#line off-by-one pinned by test/line.c, marker form, line lag after a splice); positions across nested includes and .loc emission outside",
+   technique="cbmc bounded model checking of the real tokenizer/preprocessor line bookkeeping"),
+ "C19": dict(engine=E1, level="model_checking",
+   text="for every pair of token spellings (each 1-2 symbolic ASCII bytes, identifiers / pp-numbers / punctuators) the real print_tokens output for [A,B] without intervening space is re-lexed and must give exactly [A,B]; the lexer under cbmc is a dispatch model calling the real read_punct/read_ident, validated against the real tokenize() on 4.5 million buffers on every run; counterexamples are replayed through chibicc -E",
+   note="string/character literals and spellings >2 bytes outside; cbmc cannot execute tokenize()'s main loop directly (documented)",
+   technique="cbmc bounded model checking of the real token printer against a validated lexer model"),
  "C11": dict(engine=E1, level="model_checking",
-   text="bounded symbolic checking (cbmc) of the real unicode.c/tokenize.c literal kernels over all code points / all short buffers",
-   note="trusts cbmc 6.11 and its C front end; bounds listed in evidence",
+   text="cbmc over the real unicode.c and tokenize.c literal kernels: UTF-8 encode/decode for EVERY scalar value, Annex D identifier classes for every code point, convert_pp_int's type ladder for every 64-bit value x base x all 23 suffix spellings against the C11 6.4.4.1 table, read_escaped_char on every 5-byte sequence, UTF-16 surrogate arithmetic and UTF-32/wchar readers for every scalar value",
+   note="strtoul is a contract stub (digit text -> value not encoded); floating literals are under C02; universal character names and literal concatenation outside",
    technique="solver-based bounded model checking of the real C source (cbmc/SAT)"),
 }
 NA = {
